@@ -24,16 +24,17 @@ SelfCollide == {"none", "narrow", "bvh", "sap", "auto"}
 Obstacles == {"none", "plane", "sphere", "capsule", "cylinder", "box", "ellipsoid"}
 Elastic2d == {"none", "bend", "stretch", "both"}
 Pins == {"none", "one", "two"}
+Seconds == {"none", "far", "cross"}   \* a second, plain rope: far away, or laid across the top of the first flex (flex-flex contacts)
 States == {"rest", "small", "large", "fold"}     \* fold: one vertex is laid onto a distant element of the same flex (self-contact)
 
 Cfgs == [dim : 1..3, size : 1..3, dof : Dofs, eq : Eqs, young : BOOLEAN, eldamp : BOOLEAN, e2d : Elastic2d, edgedamp : BOOLEAN, edgestiff : BOOLEAN,
          pin : Pins, selfcollide : SelfCollide, internal : BOOLEAN, obstacle : Obstacles, condim : {1, 3}, margin : BOOLEAN,
-         cone : {"pyramidal", "elliptic"}, jacobian : {"dense", "sparse"}, second : BOOLEAN, nworld : 1..2, state : States, rider : BOOLEAN]
+         cone : {"pyramidal", "elliptic"}, jacobian : {"dense", "sparse"}, second : Seconds, nworld : 1..2, state : States, rider : BOOLEAN]
 
 \* model checking enumerates the fields the rules read; the others are fixed
 McCfgs == {x \in [dim : 1..3, size : {2}, dof : Dofs, eq : Eqs, young : BOOLEAN, eldamp : BOOLEAN, e2d : Elastic2d, edgedamp : BOOLEAN, edgestiff : BOOLEAN,
                   pin : {"one"}, selfcollide : SelfCollide, internal : BOOLEAN, obstacle : {"none", "plane"}, condim : {3}, margin : {FALSE},
-                  cone : {"pyramidal"}, jacobian : {"dense"}, second : {FALSE}, nworld : {1}, state : {"rest", "small"}, rider : BOOLEAN] : TRUE}
+                  cone : {"pyramidal"}, jacobian : {"dense"}, second : {"none"}, nworld : {1}, state : {"rest", "small"}, rider : BOOLEAN] : TRUE}
 
 \* ------------------------------------------------------------------ acceptance
 CompileOK(c) ==
@@ -58,6 +59,7 @@ Feeds(c) ==
   (IF c.eq = "true" \/ (c.eq = "strain" /\ c.dof = "trilinear") THEN {"efc_equality"} ELSE {}) \cup
   (IF c.obstacle # "none" THEN {"contact"} ELSE {}) \cup
   (IF c.rider /\ c.obstacle = "plane" THEN {"sensor"} ELSE {}) \cup
+  (IF c.second = "cross" /\ c.state # "fold" THEN {"flexflex"} ELSE {}) \cup
   (IF c.state = "fold" /\ c.selfcollide # "none" /\ c.dim = 1 /\ ~(c.size = 1 /\ c.pin = "two") THEN {"selfcontact"} ELSE {})
 \* features MJWarp is known to drop (replay reports them under their own class): edge stiffness / damping
 Dropped(c) == (IF c.edgestiff THEN {"edgestiffness"} ELSE {}) \cup (IF c.edgedamp THEN {"edgedamping"} ELSE {})
@@ -73,7 +75,7 @@ RandCfg(u) ==
       e2d |-> IF dim = 2 /\ young /\ Coin(2) THEN RandomElement(Elastic2d) ELSE "none", edgedamp |-> Coin(3), edgestiff |-> (dim = 1 /\ Coin(3)) \/ Coin(25),
       pin |-> RandomElement(Pins), selfcollide |-> IF dof = "trilinear" /\ ~Coin(12) THEN "none" ELSE RandomElement(SelfCollide), internal |-> Coin(20),
       obstacle |-> RandomElement(Obstacles), condim |-> RandomElement({1, 3}), margin |-> Coin(3), cone |-> RandomElement({"pyramidal", "elliptic"}),
-      jacobian |-> RandomElement({"dense", "sparse"}), second |-> Coin(4), nworld |-> RandomElement(1..2), state |-> IF dof = "full" /\ dim = 1 /\ Coin(2) THEN "fold" ELSE RandomElement({"rest", "small", "large"}), rider |-> Coin(2)]
+      jacobian |-> RandomElement({"dense", "sparse"}), second |-> IF Coin(5) THEN "cross" ELSE IF Coin(4) THEN "far" ELSE "none", nworld |-> RandomElement(1..2), state |-> IF dof = "full" /\ dim = 1 /\ Coin(2) THEN "fold" ELSE RandomElement({"rest", "small", "large"}), rider |-> Coin(2)]
 
 VARIABLES c, k
 vars == <<c, k>>
@@ -83,7 +85,7 @@ Spec == Init /\ [][Next]_vars
 
 TypeOK == c \in Cfgs
 AcceptedCompiles == Accepted(c) => CompileOK(c)
-FeedsKnownStages == Feeds(c) \subseteq {"qfrc_spring", "qfrc_damper", "efc_equality", "contact", "selfcontact", "sensor"}
+FeedsKnownStages == Feeds(c) \subseteq {"qfrc_spring", "qfrc_damper", "efc_equality", "contact", "selfcontact", "sensor", "flexflex"}
 \* the two elastic mechanisms are exclusive, so an accepted model never has both spring elasticity and equality rows
 ElasticXorEquality == CompileOK(c) => ~({"efc_equality"} \subseteq Feeds(c) /\ c.young /\ c.e2d # "bend")
 EmitCfg == Mode = "sim" => PrintT(<<"EMIT", "cfg", ToJson([c |-> c, compile |-> CompileOK(c), accepted |-> Accepted(c), unsupported |-> Unsupported(c),
